@@ -115,7 +115,7 @@ HARNESSES = {
     "apply_trace": dict(props=["C20"], crates=["lock"], fn=one_apply, params=dict(quick=dict(calls=2), thorough=dict(calls=3)), witnesses=["ok"],
         bound=dict(quick="2 consecutive applies (symbolic data and increments) + schedule encoder: 3 threads x 2 calls, interleaving symbolic; std::sync::Mutex axiomatised",
                    thorough="3 consecutive applies"),
-        replay=dict(kind="lock_stress")),
+        replay=dict(kind="lock_stress", timeout_is_failure=True)),
     "reentrant": dict(props=["C20"], crates=["lock"], fn=reentrant, witnesses=["deadlock-detected"],
-        bound_text="apply nested in its own closure on the same lock (the only way to block)", replay=dict(kind="lock_stress")),
+        bound_text="apply nested in its own closure on the same lock (the only way to block)", replay=dict(kind="lock_stress", timeout_is_failure=True)),
 }
